@@ -9,6 +9,12 @@ use crate::packet_id;
 
 mod assembly_window;
 
+#[cfg(uflow_verif)]
+pub mod verif_exports {
+    pub use super::assembly_window::{AssemblyWindow, Packet as AssembledPacket};
+    pub use super::assembly_window::verif_exports::*;
+}
+
 pub fn datagram_is_valid(dg: &frame::Datagram) -> bool {
     if dg.channel_id as usize >= CHANNEL_COUNT {
         return false;
